@@ -36,12 +36,35 @@ META = {
     }
 }
 
-CLOCK_HZ = 10e3
-T12, T2, T360 = 120, 20, 3600          # 12 ms / 2 ms / 360 ms at 10 kHz
-REAL_CONST = {"T12": T12, "T2": T2, "T360": T360, "SlackHi": 2, "SlackLo": 2, "QuietQ": 3}
+import math
+
+
+class Clk:
+    """A value of the constructor parameter ss_clock_frequency and the time-outs (in cycles) it implies."""
+
+    def __init__(self, hz):
+        self.hz = hz
+        self.T12, self.T2, self.T360 = (int(math.ceil(t * hz)) for t in (12e-3, 2e-3, 360e-3))
+        self.const = {"T12": self.T12, "T2": self.T2, "T360": self.T360, "SlackHi": 2, "SlackLo": 2, "QuietQ": 3}
+        self.phase_timeout = {"TS1": self.T12, "TS2": self.T12, "QUIET": self.T12, "IDLE": self.T2, "LFPS": self.T360}
+
+    def __repr__(self):
+        return "%g Hz (%d/%d/%d)" % (self.hz, self.T12, self.T2, self.T360)
+
+
+CLOCK_HZ = 10e3                          # primary scaled clock: all stimulus classes
+PRIMARY = Clk(CLOCK_HZ)
+T12, T2, T360 = PRIMARY.T12, PRIMARY.T2, PRIMARY.T360          # 120 / 20 / 3600
+REAL_CONST = PRIMARY.const
+# other value classes of ss_clock_frequency (quick: one of them, rotated by the seed; thorough: all):
+#   integer products / products that need the ceil() (3333 Hz: 39.996 -> 40, 6.67 -> 7, 1199.9 -> 1200;
+#   20001 Hz: 240.012 -> 241) / a 360 ms count of exactly 2^12 (timer one bit wider than at 10 kHz)
+SECONDARY_HZ = [12.5e3, 3333.0, 20001.0, 11377.7]        # 11377.7 Hz: 360 ms = 4096 cycles
+DEFAULT_HZ = 125e6                       # the constructor default (thorough tier: the 2 ms and one 12 ms time-out)
 
 # (trace field, attribute of LTSSMController)
-IN_FIELDS = [("rst", "in_usb_reset"), ("phy", "phy_ready"), ("dscr", "disable_scrambling"), ("sent", "lfps_cycles_sent"),
+IN_FIELDS = [("rst", "in_usb_reset"), ("drst", None),            # drst = ResetSignal("ss") of the controller's domain
+             ("phy", "phy_ready"), ("dscr", "disable_scrambling"), ("sent", "lfps_cycles_sent"),
              ("pd", "link_partner_detected"), ("npd", "no_link_partner_detected"), ("lfps", "lfps_polling_detected"),
              ("ts1", "ts1_detected"), ("its1", "inverted_ts1_detected"), ("ts2", "ts2_detected"),
              ("burst", "ts_burst_complete"), ("idle", "idle_handshake_complete"), ("hot", "hot_reset_requested"),
@@ -99,7 +122,7 @@ def phase(o):
     return "NONE"
 
 
-PHASE_TIMEOUT = {"TS1": T12, "TS2": T12, "QUIET": T12, "IDLE": T2, "LFPS": T360}
+PHASE_TIMEOUT = PRIMARY.phase_timeout
 
 
 def quieten(i):
@@ -107,7 +130,7 @@ def quieten(i):
 
 
 def is_quiet(i):
-    return not i["rst"] and not any(i[s] for s in STROBES)
+    return not i["rst"] and not i["drst"] and not any(i[s] for s in STROBES)
 
 
 class Bench:
@@ -118,21 +141,26 @@ class Bench:
     source may react to what the controller is visibly doing (a link partner does).
     """
 
-    def __init__(self, loosen=True):
+    def __init__(self, loosen=True, clk=None, compliance=False):
         use_repo()
         os.environ.pop("LUNA_COMPLIANCE", None)
-        from amaranth import Module, Signal, Cat
+        if compliance:
+            os.environ["LUNA_COMPLIANCE"] = "1"       # read by LTSSMController.elaborate()
+        self.clk = clk = clk or PRIMARY
+        from amaranth import Module, Signal, Cat, ClockDomain
         from amaranth.sim import Simulator
         from luna.gateware.usb.usb3.link.ltssm import LTSSMController
         self.loosen = loosen
-        self.dut = dut = LTSSMController(ss_clock_frequency=CLOCK_HZ, loosen_requirements=loosen)
+        self.dut = dut = LTSSMController(ss_clock_frequency=clk.hz, loosen_requirements=loosen)
         top = Module()
+        top.domains.ss = cd = ClockDomain("ss")     # so that the bench can assert the domain's reset
         top.submodules.dut = dut
         self.packed = Signal(len(OUT_FIELDS))
         top.d.comb += self.packed.eq(Cat(*[getattr(dut, a) for _, a in OUT_FIELDS]))   # recorder convenience only
-        self.ins = {k: getattr(dut, a) for k, a in IN_FIELDS}
+        self.ins = {k: (getattr(dut, a) if a else cd.rst) for k, a in IN_FIELDS}
         self.sim = Simulator(top)
-        self.sim.add_clock(1.0 / CLOCK_HZ, domain="ss")
+        self.sim.add_clock(1.0 / clk.hz, domain="ss")
+        os.environ.pop("LUNA_COMPLIANCE", None)
         fsms = [s for k, s in internal_signals(self.sim).items() if k.endswith("dut.fsm_state")]
         if len(fsms) != 1:
             raise RuntimeError("LTSSM fsm_state not found")
@@ -254,11 +282,12 @@ class Script:
         self.lv.update(levels)
         self.items = []
 
-    def c(self, *strobes, n=1, rst=False, **levels):
+    def c(self, *strobes, n=1, rst=False, drst=False, **levels):
         """one cycle with the given strobes (then n-1 quiet cycles); keyword args change level inputs."""
         self.lv.update(levels)
         i = dict(NO_INPUT, **self.lv)
         i["rst"] = rst
+        i["drst"] = drst
         for s in strobes:
             i[s] = True
         self.items.append((i, n))
@@ -345,8 +374,8 @@ def sim_cfg(spec):
     return tlc.render_cfg(_cfg("MCLtssm_sim.cfg.tmpl"), dict(SIM_CONST, Spec=spec))
 
 
-def trace_cfg(lockstep):
-    return tlc.render_cfg(_cfg("LtssmTrace.cfg.tmpl"), dict(REAL_CONST, Lockstep="TRUE" if lockstep else "FALSE"))
+def trace_cfg(lockstep, clk=None):
+    return tlc.render_cfg(_cfg("LtssmTrace.cfg.tmpl"), dict((clk or PRIMARY).const, Lockstep="TRUE" if lockstep else "FALSE"))
 
 
 # ------------------------------------------------------------------------------------------------------
@@ -375,7 +404,7 @@ def simulate_scripts(spec, num, depth, seed):
 # burst-count values, long runs).  It only looks at the controller's public outputs, as a partner would.
 
 def partner(rng, cycles, withhold=(), chaos=0.0, reset_rate=0.0, recover_rate=0.02, option_rate=0.0,
-            dscr_rate=0.0, lazy=0.0, clean=True, phy_glitch=0.0, sent_chaos=False):
+            dscr_rate=0.0, lazy=0.0, clean=True, phy_glitch=0.0, sent_chaos=False, clk=None, drst_rate=0.0):
     """Generator for Bench.run.
 
     withhold   : strobes this partner never sends (the controller must then never report link_ready / must time out)
@@ -386,6 +415,8 @@ def partner(rng, cycles, withhold=(), chaos=0.0, reset_rate=0.0, recover_rate=0.
                  within 4 cycles of a phase time-out, and never together with a strobe.
     lazy       : probability per decision of going quiet for a long stretch (lets time-outs fire)
     """
+    clk = clk or PRIMARY
+    PHASE_TIMEOUT, T12 = clk.phase_timeout, clk.T12
     lv = {"phy": True, "dscr": False, "sent": 0}
     o, fsm = None, None
     ph, age = "INIT", 0
@@ -459,6 +490,9 @@ def partner(rng, cycles, withhold=(), chaos=0.0, reset_rate=0.0, recover_rate=0.
                         n = 1
                     i["rst"] = True
                     rst_left = rng.randint(0, 3)
+        if rst_left == 0 and not i["rst"] and rng.random() < drst_rate:
+            i = dict(NO_INPUT, **lv)             # the domain reset comes alone (it is not one of the controller's ports)
+            i["drst"] = True
         if n > 1 and not is_quiet(i):
             n = 1
         n = max(1, min(n, left))
@@ -473,9 +507,11 @@ def partner(rng, cycles, withhold=(), chaos=0.0, reset_rate=0.0, recover_rate=0.
 # ------------------------------------------------------------------------------------------------------
 # Directed scenarios
 
-def directed_scripts():
+def directed_scripts(clk=None):
     """[(name, class, script)] — class 'clean' (any rejection is a violation) or 'witness' (hits the trigger of an
     open finding; expected to be rejected with that finding's signature on the unchanged tree)."""
+    clk = clk or PRIMARY
+    T12, T2, T360 = clk.T12, clk.T2, clk.T360
     S = Script
     out = []
 
@@ -492,6 +528,13 @@ def directed_scripts():
     add("scrambling-local", S(dscr=True).to_u0().wait(5).c(dscr=False).wait(5).recover().wait(10))
     add("scrambling-partner", S().to_u0("nscr").wait(10).recover().wait(10).recover("nscr").wait(10).recover().wait(10))
     add("scrambling-late-request", S().to_u0().wait(5).c("nscr").wait(5).c(dscr=True).wait(5).recover().wait(9))
+    # disable_scrambling is sampled on entry to Polling.RxEQ / Polling.Active / Recovery.Active: change it right after
+    add("scrambling-local-dropped-after-sampling", S(dscr=True).to_rxeq().c("burst", sent=0).c(dscr=False).c("burst").c("ts1").c()
+        .c("ts2").c("burst").c(n=2).c("burst").c().c("idle").wait(4).c("ts1").c(dscr=True).wait(2).c("burst").c("ts1").c().c("ts2")
+        .c("burst").c(n=2).c("burst").c().c("idle").wait(4))
+    add("scrambling-local-raised-after-sampling", S().to_rxeq().c("burst", sent=0).c(dscr=True).c("burst").c("ts1").c()
+        .c("ts2").c("burst").c(n=2).c("burst").c().c("idle").wait(4).c(dscr=False).c("rec").c(dscr=True).wait(2).c("burst").c("ts2").c().c("ts2")
+        .c("burst").c(n=2).c("burst").c().c("idle").wait(4))
     add("scrambling-hot-reset", S().to_polling_idle("hot", "nscr").hot_reset_from_idle().wait(10).recover().wait(10))
     # every timed substate: quiet until just before, exactly at and after the time-out, then the event it waited for
     for d in (-2, -1, 0, 1):
@@ -549,6 +592,26 @@ def directed_scripts():
         .c("burst", sent=0).c().c("burst").c("ts1").c().c("ts2").c("burst").c(n=2).c("burst").c().c("idle").wait(5), "witness")
     add("W-early-rxdetect-quiet", S().c(n=2).c("npd").wait(5).c(rst=True).wait(T12).c("pd").c().c("lfps", sent=10).c(sent=16, n=2)
         .c("burst", sent=0).c().c("burst").c("ts1").c().c("ts2").c("burst").c(n=2).c("burst").c().c("idle").wait(5), "witness")
+    # --- reset of the "ss" clock domain (power-on reset of the gateware) in the middle of things: link_ready must be
+    #     gone in the next cycle and come back only through a complete training; timers start afresh
+    for hold in (1, 3):
+        for name, prefix in (("lfps", lambda: S().to_lfps().c("lfps", sent=5)), ("rxeq", lambda: S().to_rxeq()),
+                             ("polling-active", lambda: S().to_polling_active().c("burst")),
+                             ("polling-config", lambda: S().to_polling_config().c("ts2")),
+                             ("polling-idle", lambda: S().to_polling_idle("nscr").wait(T2 - 3)),
+                             ("u0", lambda: S(dscr=True).to_u0().wait(9)),
+                             ("recovery-config", lambda: S().to_u0().c("ts1").c("burst").c("ts2").wait(T12 - 4)),
+                             ("recovery-idle", lambda: S().to_u0().recover_to_idle("hot")),
+                             ("hot-active", lambda: S().to_polling_idle("hot").wait(4)),
+                             ("loopback", lambda: S().to_polling_idle("loop").wait(6)),
+                             ("inactive", lambda: S().to_u0().c("rec").wait(T12 + 5)),
+                             ("disabled", lambda: S().to_lfps().c("lfps").wait(T360 + 3))):
+            s = prefix()
+            for _ in range(hold):
+                s.c(drst=True)
+            add("domain-reset%d-%s" % (hold, name), s.c(dscr=False).wait(3).to_u0().wait(T2 + 5).recover().wait(3))
+    add("domain-reset-with-events", S().to_polling_idle().wait(2).c("idle", drst=True).c("idle").wait(3).to_u0().c("ts1", drst=True).wait(4))
+    add("domain-reset-in-warm-reset", S().to_u0().c(rst=True).c(rst=True, drst=True).c(rst=True).wait(3).to_u0().wait(4))
     return out
 
 
@@ -556,6 +619,11 @@ def directed_scripts():
 # Classification of rejections (for known-finding matching only; uses the logged real FSM state name)
 
 STATE_TIMEOUT = {RDQ: T12, PAC: T12, PCF: T12, HRA: T12, RAC: T12, RCF: T12, SIQ: T12, PID: T2, HRX: T2, RID: T2, PLF: T360}
+
+
+def _state_timeout(clk, state):
+    clk = clk or PRIMARY
+    return clk.T360 if state == PLF else clk.T2 if state in (PID, HRX, RID) else clk.T12 if state in STATE_TIMEOUT else None
 
 
 def classify(trace, matched, status, meta):
@@ -589,7 +657,7 @@ def classify(trace, matched, status, meta):
             pattern = "reset_in_polling_lfps"
         elif rr["fsm"] in (RDA, RDQ):
             pattern = "reset_in_rxdetect"
-        elif strobes or spent == STATE_TIMEOUT.get(rr["fsm"]) or (rr["fsm"] in (PID, RID) and spent <= 1):
+        elif strobes or spent == _state_timeout(meta.get("clk"), rr["fsm"]) or (rr["fsm"] in (PID, RID) and spent <= 1):
             pattern = "reset_coincides_with_other_transition"
         else:
             pattern = "reset_alone_not_honoured"
@@ -629,12 +697,12 @@ def _run_tour():
     return res, tour
 
 
-def _verdict_pass(rep, items, cross):
+def _verdict_pass(rep, items, cross, clk=None):
     """Monitors pass over all recorded traces (verdict-bearing) plus, in the same TLC run, the per-cycle expansions of
     the traces in `cross` (indices into items), whose verdicts must agree with those of the compressed traces."""
     logs = [{"loosen": m["loosen"], "steps": t} for t, m in items]
     logs += [{"loosen": items[k][1]["loosen"], "steps": expand(items[k][0])} for k in cross]
-    verdicts, res = tlc.validate_traces(SPEC_DIR, "LtssmTrace", trace_cfg(False), logs, timeout=6000)
+    verdicts, res = tlc.validate_traces(SPEC_DIR, "LtssmTrace", trace_cfg(False, clk), logs, timeout=6000)
     ok = steps = 0
     for (tr, meta), (matched, status) in zip(items, verdicts):
         if status == "ok" and matched == len(tr):
@@ -643,7 +711,7 @@ def _verdict_pass(rep, items, cross):
             continue
         sig = classify(tr, matched, status, meta)
         k = matched if status != "ok" else matched + 1
-        what = ("LTSSMController(loosen_requirements=%s) %s '%s' [%s]: real-gateware trace rejected by LtssmTrace at record "
+        what = ("LTSSMController(ss_clock_frequency=" + repr(clk or PRIMARY) + ", loosen_requirements=%s) %s '%s' [%s]: real-gateware trace rejected by LtssmTrace at record "
                 "%d/%d, clause '%s' (%s); last records: %s"
                 % (meta["loosen"], meta["origin"], meta["name"], meta["class"], k, len(tr), status, sig["pattern"],
                    [{"n": r["n"], "fsm": r["fsm"], "in": [x for x in ["rst"] + STROBES if r["i"][x]],
@@ -718,6 +786,7 @@ def check_C41(rep):
         ("no-burst", dict(withhold=("burst",), lazy=0.05)),
         ("no-ts1-ts2", dict(withhold=("ts1", "ts2", "its1"), lazy=0.05, chaos=0.05)),
         ("no-ts2-chaos", dict(withhold=("ts2",), chaos=0.3)),
+        ("domain-resets", dict(drst_rate=0.01, reset_rate=0.01, recover_rate=0.06, option_rate=0.2, lazy=0.03)),
     ]
     for pname, kw in profiles:
         for k in range(n_part):
@@ -725,6 +794,46 @@ def check_C41(rep):
     for k in range(n_part * 2):
         run(k % 3 != 2, partner(rng, cyc, clean=False, reset_rate=0.05, chaos=0.1, option_rate=0.2, recover_rate=0.05, lazy=0.03),
             {"origin": "partner", "name": "reset-races-%d" % k, "class": "race"})
+
+    # 2b. other configurations of the controller: further values of ss_clock_frequency (time-outs that need the ceil(),
+    #     a timer one bit wider, ...), the constructor default (thorough), LUNA_COMPLIANCE set at elaboration time
+    others = {}       # Clk -> [(trace, meta)]
+    # quick: one further clock in full (rotated by the seed) and the 2^12-cycle boundary clock with the time-out scenarios only
+    hz_list = [(SECONDARY_HZ[seed % len(SECONDARY_HZ)], True)] if quick else [(hz, True) for hz in SECONDARY_HZ]
+    if SECONDARY_HZ[-1] not in [hz for hz, _ in hz_list]:
+        hz_list.append((SECONDARY_HZ[-1], False))
+    lite = ("bringup", "polling-lfps", "partner-lost", "rxdetect-quiet", "polling-idle", "recovery-active", "domain-reset1-disabled")
+    for hz, full in hz_list:
+        clk = Clk(hz)
+        b2 = {lo: Bench(loosen=lo, clk=clk) for lo in (True, False)}
+        lst = others.setdefault(clk, [])
+        for k, (name, klass, script) in enumerate(directed_scripts(clk)):
+            if not full and not name.startswith(lite):
+                continue
+            lo = (k + seed) % 2 == 0
+            lst.append((b2[lo].run(script), {"origin": "directed", "name": name, "class": klass, "loosen": lo, "clk": clk}))
+        for k, (pname, kw) in enumerate([("eager", dict(recover_rate=0.05, option_rate=0.2)), ("lazy", dict(lazy=0.12, recover_rate=0.05)),
+                                         ("resets", dict(reset_rate=0.03, drst_rate=0.005, recover_rate=0.05, lazy=0.03)),
+                                         ("no-ts2", dict(withhold=("ts2",), lazy=0.03)), ("no-idle", dict(withhold=("idle",), lazy=0.03)),
+                                         ("chaos", dict(chaos=0.15, lazy=0.03, option_rate=0.2, sent_chaos=True))]):
+            for r in range((1 if quick else 4) if full else 0):
+                lo = (k + r) % 2 == 0
+                lst.append((b2[lo].run(partner(rng, cyc, clean=True, clk=clk, **kw)),
+                            {"origin": "partner", "name": "%s-%d" % (pname, r), "class": "clean", "loosen": lo, "clk": clk}))
+        rep.add_eval(sum(b.cycles for b in b2.values()))
+    if not quick:
+        clk = Clk(DEFAULT_HZ)
+        b3 = Bench(loosen=True, clk=clk)
+        lst = others.setdefault(clk, [])
+        for name, script in (("default-clock-polling-idle-2ms", Script().to_polling_idle().wait(clk.T2 + 6).to_u0().wait(5).items),
+                             ("default-clock-rxdetect-quiet-12ms", Script().c(n=2).c("npd").wait(clk.T12 + 6).c("pd").wait(5).items)):
+            lst.append((b3.run(script), {"origin": "directed", "name": name, "class": "clean", "loosen": True, "clk": clk}))
+        rep.add_eval(b3.cycles)
+    bc = Bench(loosen=True, compliance=True)
+    for name, script in (("compliance-stays", Script().to_lfps().wait(T360 + 300).c("ts1", sent=20).c("pd").wait(50).c(rst=True).wait(3).to_u0().wait(5).items),
+                         ("compliance-domain-reset", Script().to_lfps().wait(T360 + 30).c(drst=True).wait(3).to_u0().wait(5).items)):
+        items.append((bc.run(script), {"origin": "directed", "name": name, "class": "clean", "loosen": True, "nolock": "LUNA_COMPLIANCE"}))
+    rep.add_eval(bc.cycles)
 
     # 3. collect the TLC jobs; replay tour and simulated behaviours
     for name, (fut, consts) in mc_jobs.items():
@@ -751,8 +860,11 @@ def check_C41(rep):
 
     # 4. validation: verdict pass (monitors only) and, concurrently, drift pass (reference machine in lock-step)
     rep.add_eval(sum(b.cycles for b in benches.values()))
+    lock_items = [(t, m) for t, m in items if not m.get("nolock")]
     lock_job = pool.submit(tlc.validate_traces, SPEC_DIR, "LtssmTrace", trace_cfg(True),
-                           [{"loosen": m["loosen"], "steps": t} for t, m in items], 6000)
+                           [{"loosen": m["loosen"], "steps": t} for t, m in lock_items], 6000)
+    other_lock = {clk: pool.submit(tlc.validate_traces, SPEC_DIR, "LtssmTrace", trace_cfg(True, clk),
+                                   [{"loosen": m["loosen"], "steps": t} for t, m in lst], 6000) for clk, lst in others.items()}
     cross, budget = [], (10000 if quick else 80000)
     for k, (tr, meta) in enumerate(items):
         c = trace_cycles(tr)
@@ -760,30 +872,36 @@ def check_C41(rep):
             budget -= c
             cross.append(k)
     _verdict_pass(rep, items, cross)
+    for clk, lst in others.items():
+        _verdict_pass(rep, lst, [k for k, (tr, _) in enumerate(lst) if len(tr) < trace_cycles(tr) <= 400][:12], clk)
     rep.notes.append("event compression cross-checked on %d traces (same verdict with one record per cycle)" % len(cross))
 
     real_edges, real_states = set(), set()
-    for tr, meta in items:
+    for tr, meta in items + [x for lst in others.values() for x in lst]:
         real_states.update(r["fsm"] for r in tr)
         for a, b, cause in fsm_edges_of(tr):
             real_edges.add((a, b))
-            rep.nontriv((meta["loosen"], a, b) + cause)
+            rep.nontriv((meta["loosen"], str(meta.get("clk", "")), a, b) + cause)
 
     # drift (never a verdict): first record at which the real controller leaves the reference machine
     n_drift = {"clean": 0, "witness": 0, "race": 0}
-    verdicts, _ = lock_job.result()
-    for (tr, meta), (m, st) in zip(items, verdicts):
+    lock_results = list(zip(lock_items, lock_job.result()[0]))
+    for clk, fut in other_lock.items():
+        lock_results += list(zip(others[clk], fut.result()[0]))
+    for (tr, meta), (m, st) in lock_results:
         if st == "ok" and m == len(tr):
             continue
         n_drift[meta["class"]] += 1
         if meta["class"] == "clean":
             r = tr[m - 1] if 0 < m <= len(tr) else None
-            rep.drift.append({"trace": meta, "record": m, "what": st, "real_fsm": r and r["fsm"],
+            rep.drift.append({"trace": {k: str(v) for k, v in meta.items()}, "record": m, "what": st, "real_fsm": r and r["fsm"],
                               "inputs": r and [x for x in ["rst"] + STROBES if r["i"][x]]})
     rep.notes.append("lock-step with the reference machine (all outputs and the FSM state name, every cycle): %d clean traces "
                      "drift; %d witness and %d reset-race traces drift (expected while the findings are open)"
                      % (n_drift["clean"], n_drift["witness"], n_drift["race"]))
 
+    rep.extra["configurations"] = {"primary": repr(PRIMARY), "other_clocks": [repr(c) for c in others],
+                                   "loosen_requirements": [True, False], "LUNA_COMPLIANCE": ["unset", "set (monitors only)"]}
     rep.extra["transition_tour"] = {"stimuli": len(tour), "model_edges_covered": len(found), "model_edges": len(FSM_EDGES)}
     rep.extra["real_fsm_coverage"] = {
         "states_visited": len(real_states & set(_S)), "states_of_reference": len(_S),
